@@ -245,35 +245,39 @@ func checkC04(c *StructCase) (msg string, res *model.Result, skipped string) {
 	return model.ComparePaths(res, errText, isNil), res, ""
 }
 
-func TestC04(t *testing.T) {
-	rapid.Check(t, func(t *rapid.T) {
-		c := genC04Case(t)
-		takeGenFlags()
-		if rapid.IntRange(0, 5).Draw(t, "smallCache") == 3 {
-			c.Cache = rapid.IntRange(1, 3).Draw(t, "cacheCap") // the value may hold more struct types than the type cache
+// propC04 is the property; TestC04 drives it with rapid's random generator, FuzzC04Rapid with the coverage-guided
+// native fuzzer (thorough tier: rapid.MakeFuzz turns the fuzzer's bytes into the draws).
+func propC04(t *rapid.T) {
+	c := genC04Case(t)
+	takeGenFlags()
+	if rapid.IntRange(0, 5).Draw(t, "smallCache") == 3 {
+		c.Cache = rapid.IntRange(1, 3).Draw(t, "cacheCap") // the value may hold more struct types than the type cache
+	}
+	c.pickEntry(rapid.IntRange(0, 7).Draw(t, "entry"))
+	msg, res, skipped := checkC04(c)
+	if skipped != "" {
+		ev.Excluded(skipped)
+		return
+	}
+	special := res.SawMap || res.SawArray || res.SawPtrPtr || res.SawNilElem || res.UnmarkedPop
+	nt := res.Violations > 0 && (res.MaxDepth >= 3 || special)
+	ev.Class(fmt.Sprintf("depth=%s", bucket(res.MaxDepth)))
+	for name, on := range map[string]bool{"go-map": res.SawMap, "array": res.SawArray, "ptr-to-ptr": res.SawPtrPtr, "nil-element-or-pointer": res.SawNilElem,
+		"unmarked-populated-subobject": res.UnmarkedPop, "unexported-field": res.SawUnexp, "time.Time-field": res.SawTime} {
+		if on {
+			ev.Class("has-" + name)
 		}
-		c.pickEntry(rapid.IntRange(0, 7).Draw(t, "entry"))
-		msg, res, skipped := checkC04(c)
-		if skipped != "" {
-			ev.Excluded(skipped)
-			return
-		}
-		special := res.SawMap || res.SawArray || res.SawPtrPtr || res.SawNilElem || res.UnmarkedPop
-		nt := res.Violations > 0 && (res.MaxDepth >= 3 || special)
-		ev.Class(fmt.Sprintf("depth=%s", bucket(res.MaxDepth)))
-		for name, on := range map[string]bool{"go-map": res.SawMap, "array": res.SawArray, "ptr-to-ptr": res.SawPtrPtr, "nil-element-or-pointer": res.SawNilElem,
-			"unmarked-populated-subobject": res.UnmarkedPop, "unexported-field": res.SawUnexp, "time.Time-field": res.SawTime} {
-			if on {
-				ev.Class("has-" + name)
-			}
-		}
-		ev.Class(fmt.Sprintf("violations=%s", bucket(res.Violations)))
-		ev.Case(c02Key(c), nt, func() interface{} { return c })
-		if msg != "" {
-			ev.Fail(t, "C04", "reach", c, "%s", msg)
-		}
-	})
+	}
+	ev.Class(fmt.Sprintf("violations=%s", bucket(res.Violations)))
+	ev.Case(c02Key(c), nt, func() interface{} { return c })
+	if msg != "" {
+		ev.Fail(t, "C04", "reach", c, "%s", msg)
+	}
 }
+
+func TestC04(t *testing.T) { rapid.Check(t, propC04) }
+
+func FuzzC04Rapid(f *testing.F) { f.Fuzz(rapid.MakeFuzz(propC04)) }
 
 func TestC04Replay(t *testing.T) {
 	replayStructCases(t, "C04", func(c *StructCase) string {
